@@ -198,7 +198,41 @@ fn check_multi_inner(case: &MCase, t: &mut Tally) -> CaseResult {
     }
     let bd = bound(&mut net) * 2;
     if net.closing(bd)?.is_err() {
-        return Err(Failure::new("C21:not-quiet-within-bound", format!("after {bd} fair rounds some peer still generates messages ({} peers, {} changes)", n, net.total_changes())));
+        // what is still being asked for, and does anybody in the network hold it?
+        let mut missing: Vec<(usize, automerge::ChangeHash)> = vec![];
+        for i in 0..n {
+            for h in net.peers[i].doc.get_missing_deps(&[]) {
+                missing.push((i, h));
+            }
+        }
+        let mut held = vec![];
+        for (i, h) in &missing {
+            let holders: Vec<usize> = (0..n).filter(|j| net.peers[*j].doc.get_change_by_hash(h).is_some()).collect();
+            held.push(format!("peer {i} waits for {} held by peers {:?}", &h.to_string()[..8], holders));
+            if holders.is_empty() {
+                // a dependency that no peer holds can never be served: the session cannot go quiet, and that is
+                // the schedule's doing (an out-of-order delivery whose source left the network), not the protocol's
+                t.class("inconclusive:dependency-held-by-no-peer");
+                return Ok(());
+            }
+        }
+        // a connected neighbour holds a head that the other side never receives although it keeps asking
+        let mut starving = vec![];
+        for comp in net.components() {
+            for &p in &comp {
+                for &q in &comp {
+                    if p != q && net.is_connected(p, q) {
+                        for h in net.heads(q) {
+                            if net.peers[p].doc.get_change_by_hash(&h).is_none() {
+                                starving.push(format!("peer {p} never receives head {} of its neighbour {q}", &h.to_string()[..8]));
+                            }
+                        }
+                    }
+                }
+            }
+        }
+        let sig = if starving.is_empty() { "C21:not-quiet-within-bound" } else { "C21:not-quiet-within-bound:neighbour-head-never-delivered" };
+        return Err(Failure::new(sig, format!("after {bd} fair rounds some peer still generates messages ({} peers, {} changes); {} {}", n, net.total_changes(), held.join("; "), starving.join("; "))));
     }
     for comp in net.components() {
         let h0 = net.heads(comp[0]);
